@@ -28,6 +28,11 @@ fn main() {
         "exit255" => std::process::exit(255),
         "replyexit1" => { let r = std::fs::read(path("reply")).unwrap_or_default(); out.write_all(&r).unwrap(); out.flush().unwrap(); std::process::exit(1) }
         "stderr" => { out.write_all(&[0, 0]).unwrap(); eprintln!("generator complains"); }
+        // far more than a pipe buffer on one or both of the output streams (after the request has been read)
+        "bigstderr" => { let mut chunk = vec![b'e'; 65536]; chunk[65535] = b'\n'; for _ in 0..16 { std::io::stderr().write_all(&chunk).unwrap(); } out.write_all(&[0, 0]).unwrap(); }
+        "bigout" => { out.write_all(&[0, 0]).unwrap(); let chunk = vec![0u8; 65536]; for _ in 0..16 { out.write_all(&chunk).unwrap(); } }
+        "bigboth" => { out.write_all(&[0, 0]).unwrap(); let mut chunk = vec![b'x'; 65536]; chunk[65535] = b'\n';
+                       for _ in 0..8 { std::io::stderr().write_all(&chunk).unwrap(); out.write_all(&chunk).unwrap(); out.flush().unwrap(); } }
         "replysigkill" => { let r = std::fs::read(path("reply")).unwrap_or_default(); out.write_all(&r).unwrap(); out.flush().unwrap(); unsafe { libc_kill(9) } }
         "sigkill" => unsafe { libc_kill(9) },
         "sigsegv" => unsafe { libc_kill(11) },
